@@ -261,6 +261,10 @@ check_doc('synthetic:topology:design-bands', mb, eqpt_file=str(EXAMPLE / 'eqpt_c
 # ---- synthetic equipment documents: penalties, aliases, Raman coefficients, several SI / Span entries
 eq = load_json(EXAMPLE / 'eqpt_config.json')
 eq['Edfa'][0]['other_name'] = ['vendorX_amp_21dBm', 'legacy_name_amp']
+# an amplifier described by an advanced configuration file shared by all its names, with its own band
+ADV = next(e for e in eq['Edfa'] if e.get('type_def') == 'advanced_model')
+ADV['other_name'] = ['adv_alias_1', 'adv_alias_2']
+ADV['f_min'], ADV['f_max'] = 191.4e12, 196.0e12
 trx = deepcopy(eq['Transceiver'][0])
 trx['type_variety'] = 'aliased_trx'
 trx['other_name'] = ['aliased_trx_rev2', 'aliased_trx_old']
@@ -280,9 +284,23 @@ eq2['Roadm'][0]['target_pch_out_db'] = -20.55
 check_doc('synthetic:equipment:raman-efficiency', eq2)
 # aliases: each name gives an entry with identical parameters that reports that name
 cases += 1
-lib = _equipment_from_json(deepcopy(eq), DEFAULT_EXTRA_CONFIG)
 prob = []
+configs_before = deepcopy(DEFAULT_EXTRA_CONFIG)
+try:
+    lib = _equipment_from_json(deepcopy(eq), DEFAULT_EXTRA_CONFIG)
+    lib_again = _equipment_from_json(deepcopy(eq), DEFAULT_EXTRA_CONFIG)
+    for nm in [ADV['type_variety']] + ADV['other_name']:
+        if list(sdiff(state(lib['Edfa'][nm]), state(lib_again['Edfa'][nm]))):
+            prob.append(f'Edfa entry {nm!r} differs when the same library is built a second time')
+except Exception as e:
+    prob.append(f'library with a multi-name advanced_model amplifier cannot be built (twice): {type(e).__name__}: {e}')
+    lib = _equipment_from_json(deepcopy(eq), deepcopy(configs_before))
+if list(sdiff(configs_before, DEFAULT_EXTRA_CONFIG)):
+    prob.append(f'building the library changed the shared amplifier configurations: {list(sdiff(configs_before, DEFAULT_EXTRA_CONFIG))[:2]}')
+    DEFAULT_EXTRA_CONFIG.clear()
+    DEFAULT_EXTRA_CONFIG.update(configs_before)
 for cls_key, names in (('Edfa', [eq['Edfa'][0]['type_variety']] + eq['Edfa'][0]['other_name']),
+                       ('Edfa', [ADV['type_variety']] + ADV['other_name']),
                        ('Transceiver', ['aliased_trx', 'aliased_trx_rev2', 'aliased_trx_old'])):
     ref = None
     for nm in names:
